@@ -400,3 +400,18 @@ pub proof fn lemma_extends_frame(a: &Allocator, o: &Allocator)
         lemma_tree_extends(a, o, n);
     }
 }
+
+/// concatenation of the bytes of a list of atom nodes (new_concat, op_concat)
+pub open spec fn concat_bytes(a: &Allocator, nodes: Seq<NodePtr>) -> Seq<u8>
+    decreases nodes.len(),
+{
+    if nodes.len() == 0 {
+        Seq::<u8>::empty()
+    } else {
+        concat_bytes(a, nodes.drop_last()) + a.bytes(nodes.last())
+    }
+}
+
+pub open spec fn all_atoms(nodes: Seq<NodePtr>) -> bool {
+    forall|i: int| 0 <= i < nodes.len() ==> (#[trigger] nodes[i]).tag() != 0
+}
